@@ -127,7 +127,10 @@ pub fn check_shape(n: usize, edges: u32, dir: &Path, case: &Value) -> (Vec<Viola
     let mut out = Vec::new();
     let mut stats = OrderStats { histories: 0, events: 0, states: 0 };
     let defs = definitions(n, edges);
-    let text: String = format!("pragma circom 2.0.0;\n{}", defs.iter().map(|d| d.2.clone()).collect::<Vec<_>>().join("\n"));
+    // With a main component the project goes through the definition merger (program archive)
+    // instead of the template library.
+    let main = if case["main"].as_bool().unwrap_or(false) { "\ncomponent main = T0(1);\n" } else { "" };
+    let text: String = format!("pragma circom 2.0.0;\n{}{main}", defs.iter().map(|d| d.2.clone()).collect::<Vec<_>>().join("\n"));
     let files = runner::write_project(dir, &[("p.circom", &text)]);
     // Reference: each definition in isolation.
     let mut reference: Vec<BTreeMap<String, usize>> = Vec::new();
@@ -507,7 +510,8 @@ pub fn run(run: &Run) {
     run.set_extra("shapes", json!(shapes.len()));
     par_each(&shapes, |i, (n, edges)| {
         let dir = base.join(format!("shape-{i}"));
-        let case = json!({"kind": "order", "n": n, "edges": edges});
+        // Every second shape is a complete program (with a main component).
+        let case = json!({"kind": "order", "n": n, "edges": edges, "main": i % 2 == 1});
         run.watch(&case);
         let (vs, stats) = check_shape(*n, *edges, &dir, &case);
         run.eval(stats.histories);
